@@ -18,6 +18,16 @@ output  `(out e' (vals xRE xIM xRE' xIM' …) [alt])`  e' = `e.into_simplified()
 namespace QV.C12
 open QV QV.ExprWire
 
+
+/-! Float constants: a scientific literal inside a function is converted (`Float.ofScientific`, arbitrary-precision
+arithmetic) every time it is evaluated; as top-level constants they are converted once. -/
+def k1em6 : Float := 1e-6
+def k1em9 : Float := 1e-9
+def k1em12 : Float := 1e-12
+def k1e150 : Float := 1e150
+def kZero : Float := 0.0
+def kOne : Float := 1.0
+
 /-! ### assignments -/
 
 structure Env where
@@ -59,7 +69,7 @@ exact zero), and the largest intermediate magnitude (the scale of cancellation e
 structure Info where
   cutExact : Bool := false
   cutNear : Bool := false
-  scale : Float := 0.0
+  scale : Float := kZero
 
 def mag (z : CFloat) : Float := if z.1.abs < z.2.abs then z.2.abs else z.1.abs
 def fin (z : CFloat) : Bool := z.1.isFinite && z.2.isFinite
@@ -75,9 +85,9 @@ private def dedupe (zs : List CFloat) : List CFloat :=
 
 /-- the readings of a base of `sqrt` / `^` -/
 private def base (z : CFloat) (i : Info) : List CFloat × Info :=
-  if z.1 < 0.0 then
-    if z.2 == 0.0 then ([(z.1, 0.0), (z.1, -0.0)], { i with cutExact := true })
-    else if z.2.abs ≤ 1e-9 * z.1.abs then ([z], { i with cutNear := true })
+  if z.1 < kZero then
+    if z.2 == kZero then ([(z.1, kZero), (z.1, -kZero)], { i with cutExact := true })
+    else if z.2.abs ≤ k1em9 * z.1.abs then ([z], { i with cutNear := true })
     else ([z], i)
   else ([z], i)
 
@@ -100,7 +110,7 @@ def evalS (ε : Env) : Expr CFloat → Info → Option (List CFloat × Info)
           let c := CFloat.cos v
           let sn := CFloat.sin v
           let r := CFloat.cis v
-          fin r && fin c && fin sn && mag r ≤ 1e-6 * (if mag c < mag sn then mag sn else mag c)
+          fin r && fin c && fin sn && mag r ≤ k1em6 * (if mag c < mag sn then mag sn else mag c)
         let i := if noise then { i with cutNear := true } else i
         let rs := dedupe (vs.map CFloat.cis)
         some (rs, noteAll i rs)
@@ -116,8 +126,8 @@ def evalS (ε : Env) : Expr CFloat → Info → Option (List CFloat × Info)
         | .caret =>
           let (as', i) := bases as i
           -- `0^w` is discontinuous in `w` across `Re w = 0` (0 on one side, infinite/NaN on the other)
-          let singular := as'.any fun a => a.1 == 0.0 && a.2 == 0.0 &&
-            bs.any fun b => !(b.1 == 0.0 && b.2 == 0.0) && b.1.abs ≤ 1e-9 * mag b
+          let singular := as'.any fun a => a.1 == kZero && a.2 == kZero &&
+            bs.any fun b => !(b.1 == kZero && b.2 == kZero) && b.1.abs ≤ k1em9 * mag b
           let i := if singular then { i with cutNear := true } else i
           let rs := dedupe (as'.flatMap fun a => bs.map fun b => CFloat.pow a b)
           some (rs, noteAll i rs)
@@ -126,7 +136,7 @@ def evalS (ε : Env) : Expr CFloat → Info → Option (List CFloat × Info)
           -- whatever is computed from it (a quotient by it, a root of it) is decided by rounding
           let noise := (op == .plus || op == .minus) && as.any fun a => bs.any fun b =>
             let r := calcInfix a op b
-            !(r.1 == 0.0 && r.2 == 0.0) && fin r && mag r ≤ 1e-6 * (if mag a < mag b then mag b else mag a)
+            !(r.1 == kZero && r.2 == kZero) && fin r && mag r ≤ k1em6 * (if mag a < mag b then mag b else mag a)
           let i := if noise then { i with cutNear := true } else i
           let rs := dedupe (as.flatMap fun a => bs.map fun b => calcInfix a op b)
           some (rs, noteAll i rs)
@@ -134,7 +144,7 @@ def evalS (ε : Env) : Expr CFloat → Info → Option (List CFloat × Info)
     match evalS ε e i with
     | none => none
     | some (vs, i) => match op with
-      | .minus => some (vs.map (CFloat.sub (0.0, 0.0)), i)   -- `negate` (mod.rs:424)
+      | .minus => some (vs.map (CFloat.sub (kZero, kZero)), i)   -- `negate` (mod.rs:424)
       | .plus => some (vs, i)
   | .var n, i => (ε.rho n).map fun v => ([v], noteScale i v)
   | .address r, i =>
@@ -161,7 +171,7 @@ def evalI (ε : Env) : Expr CFloat → Info → Option (CFloat × Info)
         let c := CFloat.cos v
         let sn := CFloat.sin v
         let r := CFloat.cis v
-        let noise := fin r && fin c && fin sn && mag r ≤ 1e-6 * (if mag c < mag sn then mag sn else mag c)
+        let noise := fin r && fin c && fin sn && mag r ≤ k1em6 * (if mag c < mag sn then mag sn else mag c)
         let i := if noise then { i with cutNear := true } else i
         some (r, noteScale i r)
       | _ => let r := calcFn f v; some (r, noteScale i r)
@@ -176,7 +186,7 @@ def evalI (ε : Env) : Expr CFloat → Info → Option (CFloat × Info)
         | .caret =>
           match base a i with
           | ([a'], i) =>
-            let singular := a'.1 == 0.0 && a'.2 == 0.0 && !(b.1 == 0.0 && b.2 == 0.0) && b.1.abs ≤ 1e-9 * mag b
+            let singular := a'.1 == kZero && a'.2 == kZero && !(b.1 == kZero && b.2 == kZero) && b.1.abs ≤ k1em9 * mag b
             let i := if singular then { i with cutNear := true } else i
             let v := CFloat.pow a' b
             some (v, noteScale i v)
@@ -184,14 +194,14 @@ def evalI (ε : Env) : Expr CFloat → Info → Option (CFloat × Info)
         | _ =>
           let v := calcInfix a op b
           let noise := (op == .plus || op == .minus) &&
-            !(v.1 == 0.0 && v.2 == 0.0) && fin v && mag v ≤ 1e-6 * (if mag a < mag b then mag b else mag a)
+            !(v.1 == kZero && v.2 == kZero) && fin v && mag v ≤ k1em6 * (if mag a < mag b then mag b else mag a)
           let i := if noise then { i with cutNear := true } else i
           some (v, noteScale i v)
   | .pre op e, i =>
     match evalI ε e i with
     | none => none
     | some (v, i) => match op with
-      | .minus => some (CFloat.sub (0.0, 0.0) v, i)
+      | .minus => some (CFloat.sub (kZero, kZero) v, i)
       | .plus => some (v, i)
   | .var n, i => (ε.rho n).map fun v => (v, noteScale i v)
   | .address r, i =>
@@ -214,7 +224,7 @@ def closeSpec (a b : CFloat) (scale : Float) : Bool :=
   fin a && fin b &&
     let d := mag (a.1 - b.1, a.2 - b.2)
     let m := if mag a < mag b then mag b else mag a
-    d ≤ 1e-9 * m + 1e-12 * (if scale < 1.0 then 1.0 else scale)
+    d ≤ k1em9 * m + k1em12 * (if scale < kOne then kOne else scale)
 
 inductive Verdict where
   | pass | passCut | passCutBranch | skipNonFinite | skipNear | skipOverflow | skipMissing | fail
@@ -238,7 +248,7 @@ def valueVerdict (ε : Env) (e out : Expr CFloat) (vo vs : Option CFloat) : Verd
     else if io.cutNear || is.cutNear then .skipNear
     -- intermediates beyond 1e150: a re-associated product can overflow where the original does not
     -- (`-MAX * (-MAX * 0)` is 0, `(-MAX * -MAX) * 0` is NaN); the exact-field theorem knows no overflow
-    else if scale > 1e150 then .skipOverflow
+    else if scale > k1e150 then .skipOverflow
     else if io.cutExact || is.cutExact then
       if closeSpec vo vs scale then .passCut else if anyClose then .passCutBranch else .fail
     else if closeSpec vo vs scale then .pass else .fail
@@ -264,8 +274,8 @@ instance : SimpScalar XF where
   pi := ⟨Scalar.pi⟩
   zero := ⟨Scalar.zero⟩
   one := ⟨Scalar.one⟩
-  isZero a := a.v.1 == 0.0 && a.v.2 == 0.0
-  isOne a := a.v.1 == 1.0 && a.v.2 == 0.0
+  isZero a := a.v.1 == kZero && a.v.2 == kZero
+  isOne a := a.v.1 == kOne && a.v.2 == kZero
   eqv a b := SimpScalar.eqv a.v b.v
   nan := ⟨SimpScalar.nan⟩
   two := ⟨SimpScalar.two⟩
@@ -317,7 +327,7 @@ the shared evaluator makes this driver independent of which negation `QV.Shared.
 def negToSub : Expr CFloat → Expr CFloat
   | .call f e => .call f (negToSub e)
   | .bin l o r => .bin (negToSub l) o (negToSub r)
-  | .pre .minus e => .bin (.number (0.0, 0.0)) .minus (negToSub e)
+  | .pre .minus e => .bin (.number (kZero, kZero)) .minus (negToSub e)
   | .pre .plus e => .pre .plus (negToSub e)
   | e => e
 
@@ -326,7 +336,7 @@ def cmpVal (m : Except EvalError CFloat) (i : Option CFloat) : Nat :=
   match m, i with
   | .ok a, some b =>
     if CFloat.bitEq a b then 2
-    else if CFloat.close 1e-9 a b then 1
+    else if CFloat.close k1em9 a b then 1
     else if !fin a && !fin b then 1   -- non-finite on both sides (inf vs NaN patterns of overflowing libm calls)
     else 0
   | .error _, none => 2
@@ -429,7 +439,7 @@ def handle (inp out : Sexp) : CaseResult :=
               -- `Gate::to_unitary` has a matrix iff the simplified parameter is a number; then it is the matrix of
               -- that number (`PHASE(e')` with `e'` a number needs no simplification)
               let uSpec := match a.u1, a.u2 with
-                | .ok x, .ok y => isNumber o && (CFloat.close 1e-9 x y || (!fin x && !fin y))
+                | .ok x, .ok y => isNumber o && (CFloat.close k1em9 x y || (!fin x && !fin y))
                 | .err, _ => !isNumber o
                 | .ok _, .err => false
               (mAgree, a.same && uSpec,
